@@ -17,8 +17,7 @@ PID = "C18"
 KEYS = "ABCDEFGHIJ"
 FUNCS = {1: "normalized", 2: "sorted", 3: "n_keys", 4: "minimum_n_keys", 5: "at_age", 6: "at_lock_time",
          7: "entails", 8: "check_timelocks", 9: "lift"}
-KNOWN_KEYS = {34: "minkeys-duplicate-keys", 37: "entails-unnormalized-args",
-              38: "mixed-timelock-unsat-subterm", 39: "lift-and-arity"}
+KNOWN_KEYS = {34: "minkeys-duplicate-keys", 39: "lift-refuses-unsat-branch"}
 
 
 # ------------------------------------------------------------------ token <-> text
@@ -323,7 +322,8 @@ def variants(p, concrete):
         elif x in (10, 11):
             subs = q[1]
             out.append(rebuild((21 - x, subs)))
-            out.append(rebuild((9, len(subs), subs)))
+            if subs:
+                out.append(rebuild((9, len(subs), subs)))
             for i, s in enumerate(subs):
                 rec(s, lambda n, i=i: rebuild((x, subs[:i] + [n] + subs[i + 1:])))
         else:
@@ -549,7 +549,7 @@ def run(rep, tier, seed, replay):
         "rule": "exhaustive: every semantic policy <= %d nodes over {UNSAT,TRIVIAL,pk(A),pk(B),older(5),after(100)}, every "
                 "semantic policy of 6..%d nodes over {UNSAT,TRIVIAL,pk(A)} (arity <= 3), entails on all ordered pairs of policies <= 3 x <= %d nodes "
                 "over 5 leaves and on policies with 8..25 terminals over 2..5 atoms, "
-                "every concrete policy <= 4 nodes (and/or/thresh arity <= 3) over 7 leaves (thorough: + all of 5 nodes over 5 leaves); + seeded random semantic / entailment / "
+                "every concrete policy <= 4 nodes (and/or/thresh arity 0..3) over 7 leaves (thorough: + all of 5 nodes over 5 leaves); + seeded random semantic / entailment / "
                 "concrete cases up to 30 nodes and 8 distinct atoms; every output compared with the model and judged by the "
                 "truth table over all assignments" % ((6, 8, 4) if tier == "thorough" else (5, 7, 3)),
         "input_distribution": histogram(lines),
